@@ -196,6 +196,8 @@ impl FeatureState for TravelLimitState {
                     job_tw.start - duration + (job_tw.end - job_tw.start) / 2., // middle
                 ]
                 .into_iter()
+                // never depart before the shift start
+                .map(|departure_time| start_place.time.earliest.unwrap_or(0.0).max(departure_time))
                 // do not depart outside allowed time
                 .filter(|&departure_time| {
                     let start_latest = start_place.time.latest.unwrap_or(f64::MAX);
